@@ -54,6 +54,23 @@ def run(tier, seed):
             rep.violation(f"C04/opcode-table/{t['exp']}-{t['dir']}", f"{t['exp']} {t['dir']} opcode reader accepts {extra[:5]} that the wowm does not define / lacks {missing[:5]}",
                           {"expansion": t["exp"], "direction": t["dir"], "accepted_but_undefined": extra, "defined_but_rejected": missing,
                            "input": f"frame with opcode {(extra or missing)[0]:#x}"})
+    # ---------------- T-gen: the dispatch itself (tools/opcode_dispatch.py): the arm for opcode N builds variant X by X's own reader, and X's OPCODE is N
+    import opcode_dispatch
+    disp, dprob = opcode_dispatch.check()
+    for p in dprob:
+        rep.violation(f"C04/dispatch-translator/{p['file']}#{p['enum']}", p["problem"], p, no_input=True)
+    for a in disp:
+        if a["kind"] == "read" and not a["ok"]:
+            rep.violation(f"C04/dispatch/{a['file']}#{a['enum']}/{a['opcode']:#06x}", f"{a['file']}: {a['enum']}::read_opcodes answers opcode {a['opcode']:#x} with variant {a['variant']} read by {a['type']} (whose OPCODE is {a['const_opcode']})",
+                          dict(a, input=f"frame with opcode {a['opcode']:#x} and a body of {a['type']}"), no_input=False)
+    ldisp, lprob = opcode_dispatch.check_login()
+    for p in lprob:
+        rep.violation(f"C04/dispatch-translator/{p['file']}#{p['enum']}", p["problem"], p, no_input=True)
+    for a in ldisp:
+        if a["kind"] == "login-read" and not a["ok"]:
+            rep.violation(f"C04/dispatch/{a['file']}#{a['enum']}::{a['fn']}/{a['opcode']:#04x}", f"{a['file']}: {a['enum']}::{a['fn']} answers opcode {a['opcode']:#x} with variant {a['variant']} read by {a['type']}::{a['calls']} (OPCODE {a['const_opcode']})",
+                          dict(a, input=f"login message with opcode byte {a['opcode']:#x}"), no_input=False)
+    n_disp_read = sum(1 for a in disp if a["kind"] == "read") + sum(1 for a in ldisp if a["kind"] == "login-read")
     # ---------------- T-corr
     rc, out, har = harness_build("world")
     if rc != 0:
@@ -164,7 +181,7 @@ def run(tier, seed):
         "reader_tie": tie_cov,
         "checker_cmd": "cd /verif/lean && lake build WowVerif.Thm.C04; python3 /verif/tools/rust_reads.py",
         "trusted_base": TRUSTED_BASE_COMMON + ["tools/rust_reads.py (reads `// name: Type` + `let name = <read>.try_into()?;` and the opcode match arms)", "tools/wowm.py, tools/corpus.py"],
-        "theorems": po["theorems"], "enum_read_sites": len(items), "opcode_tables": len(optabs),
+        "theorems": po["theorems"], "enum_read_sites": len(items), "opcode_tables": len(optabs), "dispatch_read_arms": n_disp_read,
         "evaluations": n_enum + len(sreq) + len(oreq), "distinct_nontrivial": len(set(hreq)) + len(set(sreq)) + len(set(oreq)),
         "enum_corruptions": n_enum, "fixed_size_messages": nfixed, "fixed_size_requests": len(sreq), "undefined_opcodes_tried": len(oreq),
         "spec_decoder_did_not_report_enum": spec_disagree,
